@@ -458,7 +458,7 @@ fn parse_tls_extension_pre_shared_key_content(
 }
 
 pub fn parse_tls_extension_pre_shared_key(i: &[u8]) -> IResult<&[u8], TlsExtension> {
-    let (i, _) = tag([0x00, 0x28])(i)?;
+    let (i, _) = tag([0x00, 0x29])(i)?;
     let (i, ext_len) = be_u16(i)?;
     map_parser(take(ext_len), move |d| {
         parse_tls_extension_pre_shared_key_content(d, ext_len)
